@@ -176,8 +176,8 @@ theorem Fr.cancelDelayed (s : CBelt) : Fr s s.cancelDelayed := by
 
 theorem Fr.setState (s : CBelt) (new : CState) : Fr s (s.setState new) := by
   unfold CBelt.setState
-  have h1 : Fr s { s with st := new } := Fr.of_eq rfl rfl rfl rfl rfl rfl rfl rfl rfl rfl rfl (Nat.le_refl _) rfl
-  have h2 : ∀ b, Fr s { s with st := new, noacc := b } := fun b => Fr.of_eq rfl rfl rfl rfl rfl rfl rfl rfl rfl rfl rfl (Nat.le_refl _) rfl
+  have h1 : Fr s { s with st := new, everStalled := s.everStalled || new.stalled } := Fr.of_eq rfl rfl rfl rfl rfl rfl rfl rfl rfl rfl rfl (Nat.le_refl _) rfl
+  have h2 : ∀ b, Fr s { s with st := new, everStalled := s.everStalled || new.stalled, noacc := b } := fun b => Fr.of_eq rfl rfl rfl rfl rfl rfl rfl rfl rfl rfl rfl (Nat.le_refl _) rfl
   simp only
   split
   · split
